@@ -351,7 +351,11 @@ func (ip *Inode) Write(atxn *alloctxn.AllocTxn, offset uint64,
 		}
 		if byteoff == 0 && nbytes == disk.BlockSize { // block overwrite?
 			addr := atxn.Super.Block2addr(blkno)
-			atxn.Op.OverWrite(addr, common.NBITBLOCK, data[0:nbytes])
+			// copy: the journal keeps the slice until the block is logged
+			// and installed, long after the caller's buffer (the RPC
+			// layer's pooled request buffer) has been reused
+			atxn.Op.OverWrite(addr, common.NBITBLOCK,
+				util.CloneByteSlice(data[0:nbytes]))
 		} else {
 			buffer := atxn.ReadBlock(blkno)
 			for b := uint64(0); b < nbytes; b++ {
